@@ -7,7 +7,7 @@ Ops (JSON):
   {"op":"bind", "cls": name, "kind": "load"|"dump", "meta": {...}}                 LoadMeta/DumpMeta(**meta).bind_to(cls)
   {"op":"load", "cls": name, "doc": <json>, "via": "fromdict"|"method"|"fromlist"|"method_list"|"json"|"json_list"|"yaml"|"toml"}
   {"op":"dump", "cls": name, "expr": <python expression building the instance in the family namespace>,
-                "via": "asdict"|"method"|"to_json"|"list_to_json"|"yaml"|"toml"}
+                "via": "asdict"|"method"|"to_json"|"list_to_json"|"yaml"|"toml", "drop_keys": [keys left out of the recorded dict, at any depth]}
   {"op":"src", "src": <python source>, "defines": [names], "requires": [names]}   free-form definitions (subclasses, mixins, hooks)
   {"op":"dumpnew", ...}  as dump (kept distinct for statistics: a novel value subtype)
 """
@@ -47,6 +47,14 @@ def _err(e):
     if isinstance(e, JSONWizardError):
         return ['err', type(e).__name__]
     return ['err', 'raw:' + type(e).__name__]
+
+
+def _drop_keys(v, keys):
+    if isinstance(v, dict):
+        return {k: _drop_keys(x, keys) for k, x in v.items() if k not in keys}
+    if isinstance(v, list):
+        return [_drop_keys(x, keys) for x in v]
+    return v
 
 
 class World:
@@ -118,7 +126,10 @@ class World:
                     d = asdict(x)
                 else:
                     raise ValueError(via)
-                return ['ok', json.loads(json.dumps(d, default=repr))]
+                d = json.loads(json.dumps(d, default=repr))
+                if op.get('drop_keys'):          # keys kept out of the record (C07: the tag keys of auto-tagged Union members)
+                    d = _drop_keys(d, set(op['drop_keys']))
+                return ['ok', d]
             raise ValueError(k)
         except Exception as e:
             if os.environ.get('VERIF_HIST_DEBUG'):
